@@ -179,13 +179,17 @@ package bundle
 //@   returns (res, err)
 //@   requires len(es) >= 1 && (forall i int :: 0 <= i && i < len(es) ==> es[i] != nil)
 //@   ensures[every-slot-filled] err == nil ==> len(res) >= 1 && (forall i int :: 0 <= i && i < len(res) ==> res[i] != nil)
+//@   ensures[no-entry-dropped] err == nil ==> forall k int :: {es[k]} 0 <= k && k < len(es) ==> (exists i int :: 0 <= i && i < len(res) && res[i] == es[k])
 //@   assigns nothing
 //@   loop 0:
 //@     invariant len(result) == numPossibleKeys && fresh(result) && numPossibleKeys == axesProd(arr(variants), off(variants), len(variants))
 //@     invariant forall i int :: 0 <= i && i < len(variants) ==> len(variants[i]) >= 2
+//@     invariant[placed] forall k int :: {es[k]} 0 <= k && k <= rangeindex ==> (exists i int :: 0 <= i && i < len(result) && result[i] == es[k])
 //@     invariant forall i int :: {axesProd(arr(variants), off(variants), i)} 0 <= i && i <= len(variants) ==> 1 <= axesProd(arr(variants), off(variants), i) && axesProd(arr(variants), off(variants), i) <= maxNumVariantsForSingleURL
 //@   loop 1:
 //@     invariant len(result) == numPossibleKeys && fresh(result) && numPossibleKeys == axesProd(arr(variants), off(variants), len(variants))
+//@     invariant[placed-so-far] forall k int :: {es[k]} 0 <= k && k <= rangeindex0 ==> (exists i int :: 0 <= i && i < len(result) && result[i] == es[k])
+//@     invariant[current-placed] rangeindex >= 0 ==> (exists i int :: 0 <= i && i < len(result) && result[i] == e)
 //@     invariant forall i int :: 0 <= i && i < len(variants) ==> len(variants[i]) >= 2
 //@     invariant forall i int :: {axesProd(arr(variants), off(variants), i)} 0 <= i && i <= len(variants) ==> 1 <= axesProd(arr(variants), off(variants), i) && axesProd(arr(variants), off(variants), i) <= maxNumVariantsForSingleURL
 //@   loop 2:
